@@ -6,6 +6,7 @@ import sys
 sys.path.insert(0, '/verif/lib')
 import vlib
 import persistlib as pl
+import corelib
 
 EVIDENCE_DEFAULTS = dict(level='proof', rule='not run: preparation failed')
 
@@ -27,6 +28,13 @@ def run(ctx):
     stats, results = pl.run_case_shards(ctx, shards)
     pl.report_shards(ctx, stats, results, 'fail-file format / names')
 
+    # engine part of the model (check_files / doCheck of Model/Shrink.v) vs the real doCheck run in directories
+    # holding unparsable files, other versions and recordings of passing / invalid / failing runs
+    etotal, ebroken = corelib.correspondence(ctx, 'check-cases', 8 if thorough else 3,
+                                             ['-n', '2', '-na', '0', '-nf', '120' if thorough else '60', '-profile', 'all'], ('_dcf',))
+    for what, detail in ebroken:
+        ctx.broken('correspondence', what, detail)
+    stats['engine_dcf'] = etotal.get('stats', etotal)
     # direct oracle on the real engine: fail -> file -> rerun
     n = 1500 if thorough else 80
     rc, out, err = ctx.harness('persist-tworun', '-seed', s, '-n', n, '-part', 'c06', timeout=1500 if thorough else 400)
@@ -49,7 +57,7 @@ def run(ctx):
         stats['tworun'] = {k: c06.get(k) for k in ('scenarios', 'ok', 'distinct', 'classes', 'stats')}
 
     ctx.partial.append('the two-run history Check -> fail file -> Check (found without a flag, run before any random case, "after 0 tests", same failure, same draws) '
-                       'is tested end to end by persist-tworun, not proved here: its theorem needs the engine model')
+                       'is proved in the engine model (C06_saved_failure_is_replayed_first, under the C01 hypotheses: no trace of rejected attempts) and tested end to end by persist-tworun; the engine model is tied to the real doCheck by the fail-file correspondence (check-cases -nf)')
     ctx.partial.append('Go library functions (bufio.Scanner, strings.TrimSpace, strconv.ParseUint, fmt, filepath.Match/Glob) are re-modelled and tied to the real ones by differential testing only')
     return ctx.finish(
         level='proof',
